@@ -68,6 +68,8 @@ def classify_stderr(txt, rc):
         msg = re.sub(r"-?\d+", "N", msg)
         fm = re.search(r"([\w./-]+\.[ch]):\d+:\d+: runtime error", txt)
         return "ubsan:" + msg.strip()[:80].replace(" ", "_") + ("@" + os.path.basename(fm.group(1)) if fm else "")
+    if "LeakSanitizer has encountered a fatal error" in txt:
+        return "infra:lsan-tracer-failed"          # the sanitizer's own stop-the-world tracer died: says nothing about the library
     if "LeakSanitizer" in txt:
         return "lsan:leak"
     if "Assertion" in txt and "failed" in txt:
@@ -204,6 +206,17 @@ def run_shard(binpath, args, env, workdir, tag, prop, timeout, max_restarts=400,
             attempt += 1
             continue
         kind = classify_stderr(err, rc)
+        if kind.startswith("infra:"):
+            # failure of the tooling, not an observation about the library: same treatment as the watchdog
+            timeouts += 1
+            res.stats["sanitizer_infrastructure_failures"] = res.stats.get("sanitizer_infrastructure_failures", 0) + 1
+            pending_timeouts.append("%s in %s at case %s (%s)" % (kind, tag, open_idx, open_key))
+            if timeouts >= 2 or open_idx is None:
+                res.inconclusive += pending_timeouts
+                break
+            start = open_idx
+            attempt += 1
+            continue
         if kind.startswith("signal:") and fault:
             ms = re.search(r"sig=(\d+)", fault)
             if ms:
